@@ -21,7 +21,7 @@ LEVEL = 'proof'
 RT = '(1 # 68719476736)'          # 2^-36
 TOL = Fraction(1, 2 ** 40)        # oracle: relative to summed magnitudes
 
-HEADER = '''From Coq Require Import QArith List ZArith.
+HEADER = '''From Coq Require Import QArith List ZArith Floats.
 Require Import Kawin.Common.Ops Kawin.Common.Vec Kawin.Common.Out Kawin.C04.Model Kawin.C04.Corr.
 Import ListNotations.
 Open Scope Q_scope.
@@ -172,13 +172,15 @@ def gen_cfg(rng, quick, force=None):
     force = force or {}
     kind = force.get('kind', str(rng.choice(['sp', 'hom'], p=[0.6, 0.4])))
     ne = int(force.get('ne', rng.choice([1, 2, 3], p=[0.45, 0.4, 0.15]) if kind == 'sp' else rng.choice([1, 2], p=[0.5, 0.5])))
-    nmax = 24 if quick else 120
+    nmax = 24 if quick else 80
     N = int(force.get('N', rng.choice([2, 3, 4, int(rng.integers(5, nmax + 1))], p=[0.05, 0.07, 0.08, 0.8])))
     L = float(10 ** rng.uniform(-4, -2))
     z0 = float(rng.choice([0.0, -L]))
     zlim = [z0, z0 + (L if z0 == 0.0 else 2 * L)]
     span = zlim[1] - zlim[0]
     els = ELS[:ne + 1]
+    if kind == 'hom' and ne >= 2 and rng.random() < 0.4:
+        els = els[:-1] + ['C']          # an interstitial: not part of the volume-fixed frame sum
     cap = 0.9 / ne
     profiles = {}
     for e in els[1:]:
@@ -378,6 +380,11 @@ def oracle(cfg, rec):
     """returns list of (clause, cls, message)"""
     out = []
     if rec['err']:
+        if cfg['kind'] == 'hom' and rec['err'].startswith('ValueError: zero-size array to reduction operation maximum'):
+            # HomogenizationModel.getDt on an all-zero rate (flat profile, closed boundaries): the run cannot start.
+            # Robustness of the step-size rule is not part of this property (it belongs to C03); counted, not judged.
+            rec['flat'] = True
+            return []
         return [('no_internal_error', 'exception', 'run raised ' + rec['err'])]
     m, obs, it = rec['model'], rec['obs'], rec['it']
     els = cfg['elements'][1:]
@@ -398,11 +405,14 @@ def oracle(cfg, rec):
             seen.add((clause, cls))
             out.append((clause, cls, msg))
     first_of_call = {a: k for k, (a, b) in enumerate(rec['calls'])}
-    x_start = steps[0]['X0'].reshape(len(els), -1)
-    if rec['setup_x'] is not None and not np.array_equal(rec['setup_x'], x_start):
-        d = float(np.max(np.abs(rec['setup_x'] - x_start)))
+    x_first = steps[0]['X0'].reshape(len(els), -1)
+    x_start = rec['setup_x'] if rec['setup_x'] is not None else x_first      # the profile setup installed
+    if not np.array_equal(x_first, x_start):
+        d = float(np.max(np.abs(x_first - x_start)))
         add('multi_solve_no_drift', 'state changed between solve calls',
             'profile after setup() differs from the profile the following solve() starts from (max change %.3e)' % d)
+    if np.any(x_start < minc) or np.any(x_start > hi):
+        add('bounds', 'initial', 'composition outside [min, 1-min] after setup: min %.3e max %.17g' % (float(x_start.min()), float(x_start.max())))
     for g, st in enumerate(steps):
         X0 = st['X0'].reshape(len(els), -1)
         Xn = st['Xn'].reshape(len(els), -1)
@@ -461,8 +471,33 @@ def oracle(cfg, rec):
 
 # ------------------------------------------------------------------------------------------
 # Coq terms
+def flit(x):
+    """exact hexadecimal float literal (Coq primitive float), converted to Q inside Coq by Corr.f2q"""
+    x = float(x)
+    if not math.isfinite(x):
+        raise ValueError('non-finite value cannot be shipped to the model: %r' % x)
+    h = x.hex()
+    return '(%s)' % h if h[0] == '-' else h
+
+
+def fq(x):
+    return '(f2q %s%%float)' % flit(x)
+
+
+def fvec(xs):
+    return '(fv [%s]%%float)' % '; '.join(flit(v) for v in xs)
+
+
+def frows(a):
+    return '[' + '; '.join('[' + '; '.join(flit(v) for v in row) + ']' for row in np.atleast_2d(a)) + ']'
+
+
 def qmat(a):
-    return qlistlist([[float(v) for v in row] for row in np.atleast_2d(a)])
+    return '(fm %s%%float)' % frows(a)
+
+
+def qmats(arrs):
+    return '(fms [%s]%%float)' % '; '.join(frows(a) for a in arrs)
 
 
 def bcs_term(m):
@@ -471,8 +506,8 @@ def bcs_term(m):
     b = m.boundaryConditions
     parts = []
     for e in m.elements:
-        parts.append('mkbcQ %s %s %s %s' % (boollit(b.leftBCtype[e] == B.FLUX_BC), qlit(float(b.leftBC[e])),
-                                           boollit(b.rightBCtype[e] == B.FLUX_BC), qlit(float(b.rightBC[e]))))
+        parts.append('mkbcQ %s %s %s %s' % (boollit(b.leftBCtype[e] == B.FLUX_BC), fq(b.leftBC[e]),
+                                           boollit(b.rightBCtype[e] == B.FLUX_BC), fq(b.rightBC[e])))
     return '[' + '; '.join(parts) + ']'
 
 
@@ -481,10 +516,10 @@ def step_term(cfg, rec, g):
     st = it.log[g]
     ne = len(m.elements)
     calls = [m.fluxlog[i] for i in range(*st['calls'])]
-    stages = '[' + '; '.join(qmat(c[2][:, 1:-1]) for c in calls) + ']'
-    stage_x = '[' + '; '.join(qmat(c[1]) for c in calls[1:]) + ']'
+    stages = qmats([c[2][:, 1:-1] for c in calls])
+    stage_x = qmats([c[1] for c in calls[1:]])
     return 'check_step %s %s %s %s %s %s %s %s %s %s' % (
-        RT, bcs_term(m), qlit(float(m.dz)), qlit(cfg['minc']), qlit(st['dt']), qmat(st['X0'].reshape(ne, -1)), stages, stage_x,
+        RT, bcs_term(m), fq(m.dz), fq(cfg['minc']), fq(st['dt']), qmat(st['X0'].reshape(ne, -1)), stages, stage_x,
         qmat(st['Xn'].reshape(ne, -1)), qmat(obs.log[g][1]))
 
 
@@ -496,8 +531,8 @@ def flux_term(cfg, rec, i):
     if cfg['kind'] == 'sp':
         d = [m.therm.getInterdiffusivity(x[:, k], T[k], phase=m.phases[0]) for k in range(m.N)]
         if len(m.elements) == 1:
-            return 'check_sp_binary %s %s %s %s %s %s' % (RT, bcs_term(m), qlit(float(m.dz)), qlist([float(v) for v in d]), qmat(x), qmat(fl))
-        return 'check_sp_multi %s %s %s %s %s %s' % (RT, bcs_term(m), qlit(float(m.dz)), '[' + '; '.join(qmat(D) for D in d) + ']', qmat(x), qmat(fl))
+            return 'check_sp_binary %s %s %s %s %s %s' % (RT, bcs_term(m), fq(m.dz), fvec(d), qmat(x), qmat(fl))
+        return 'check_sp_multi %s %s %s %s %s %s' % (RT, bcs_term(m), fq(m.dz), qmats(d), qmat(x), qmat(fl))
     from kawin.diffusion.HomogenizationParameters import computeHomogenizationFunction
     from kawin.thermo.Mobility import interstitials
     from kawin.Constants import GAS_CONSTANT
@@ -509,8 +544,8 @@ def flux_term(cfg, rec, i):
     mface = np.exp(0.5 * (lm[:, 1:] + lm[:, :-1]))        # the one transcendental line of _getFluxes: oracle values
     subst = '[' + '; '.join(boollit(e not in interstitials) for e in m.allElements) + ']'
     return 'check_hom %s %s %s %s %s %s %s %s %s %s %s' % (
-        RT, bcs_term(m), qlit(float(m.dz)), qlit(float(m.homogenizationParameters.eps)), qlit(float(GAS_CONSTANT)), subst,
-        qmat(mface), qmat(mu), qlist([float(v) for v in T]), qmat(x), qmat(fl))
+        RT, bcs_term(m), fq(m.dz), fq(m.homogenizationParameters.eps), fq(GAS_CONSTANT), subst,
+        qmat(mface), qmat(mu), fvec(T), qmat(x), qmat(fl))
 
 
 def verdict_bad(v):
@@ -565,7 +600,7 @@ def kernel_cases(ctx, n):
             x[rng.random((ne, N)) < 0.2] = minc
             x[rng.random((ne, N)) < 0.1] = 1 - minc
             got, _ = m.postProcess(1.0, [x.copy()])
-            terms.append('check_post %s %s %s %s' % (RT, qlit(minc), qmat(x), qmat(got[0])))
+            terms.append('check_post %s %s %s %s' % (RT, fq(minc), qmat(x), qmat(got[0])))
             meta.append(('post', {'minc': minc, 'x': x.tolist()}))
     return terms, meta
 
@@ -582,7 +617,7 @@ def setup_case(cfg):
         x2 = np.array(m.x, copy=True)
     except Exception as e:
         return None
-    return 'check_setup %s %s %s %s %s %s %s' % (RT, bcs_term(m), zlit(len(m.allElements)), qlit(cfg['minc']), qmat(built), qmat(x1), qmat(x2))
+    return 'check_setup %s %s %s %s %s %s %s' % (RT, bcs_term(m), zlit(len(m.allElements)), fq(cfg['minc']), qmat(built), qmat(x1), qmat(x2))
 
 
 # ------------------------------------------------------------------------------------------
@@ -741,20 +776,25 @@ def real_runs(ctx, hits, quick):
 def run(ctx):
     quick = ctx.quick
     ctx.cov['rule'] = ('configurations: single-phase (stub interdiffusivity depending on composition and temperature) or homogenization model '
-                       '(scripted two-phase mobility table driving the five homogenisation functions), 1-3 independent elements, 2..24 nodes (quick) / 2..120 '
+                       '(scripted two-phase mobility table driving the five homogenisation functions), 1-3 independent elements, 2..24 nodes (quick) / 2..80 '
                        '(thorough), profile builders step/linear/bounded/single/function/data (also stacked), isothermal / time table / T(z,t) field, every mix of '
                        'flux (zero and non-zero) and composition conditions per element and side set through the constructor, setBC(element=..) or setBC() '
                        'default element, Euler / RK4, 1-3 consecutive solve calls with or without an explicit setup(), minComposition 1e-8/1e-6/1e-4; a case is '
                        'non-trivial when the profile is not flat or a boundary flux is non-zero; distinct by hash of the configuration / of the exact arrays')
-    axioms, failed = ctx.prove(['C04/Properties.v'])
+    import time as _time
+    tm = {}
+    t0 = _time.time()
+    axioms, failed = ctx.prove(['C04/Properties.v', 'C04/Hom.v'])
+    tm['prove_s'] = round(_time.time() - t0, 1)
+    t0 = _time.time()
     hits = []
     dis = []
 
     # ---- runs: corpus first, then generated -------------------------------------------------
-    ncfg = 70 if quick else 600
+    ncfg = 60 if quick else 300
     cfgs = corpus_cfgs() + [gen_cfg(ctx.rng, quick) for _ in range(ncfg)]
     terms, meta = [], []
-    step_budget = 3 if quick else 6
+    step_budget = 2 if quick else 4
     for ci, cfg in enumerate(cfgs):
         rec = run_cfg(cfg)
         key = {k: v for k, v in cfg.items() if not k.startswith('_')}
@@ -765,7 +805,7 @@ def run(ctx):
         ctx.count(key, nontriv)
         ctx.cov['traces_validated_against_impl'] += 1
         ctx.hist('model', cfg['kind'])
-        ctx.hist('elements', cfg['ne'])
+        ctx.hist('elements', str(cfg['ne']) + ('+interstitial' if 'C' in cfg['elements'] else ''))
         ctx.hist('nodes', '2' if cfg['N'] == 2 else '3-4' if cfg['N'] <= 4 else '5-24' if cfg['N'] <= 24 else '>24')
         ctx.hist('iterator', cfg['iterator'])
         ctx.hist('solve_calls', len(cfg['calls']))
@@ -777,12 +817,15 @@ def run(ctx):
                 ctx.hist('profile', st[0])
         for h in oracle(cfg, rec):
             hits.append((key, *h))
+        if rec.get('flat'):
+            ctx.notes['runs_not_started_flat_profile'] = ctx.notes.get('runs_not_started_flat_profile', 0) + 1
         if rec.get('clip_steps'):
             ctx.notes['steps_with_active_clip'] = ctx.notes.get('steps_with_active_clip', 0) + rec['clip_steps']
         if rec['err'] is None and rec['it'] is not None and rec['it'].log:
             ctx.notes['steps_run'] = ctx.notes.get('steps_run', 0) + len(rec['it'].log)
             ng = len(rec['it'].log)
-            pick = sorted(set([0, ng - 1] + [a for a, b in rec['calls'] if a < ng][:step_budget]))[:step_budget]
+            starts = [a for a, b in rec['calls'] if a < ng]
+            pick = sorted(set(([0, starts[-1]] if quick else [0, ng - 1] + starts)))[:step_budget]
             for g in pick:
                 terms.append(step_term(cfg, rec, g))
                 meta.append(('step', key, g))
@@ -802,10 +845,17 @@ def run(ctx):
         terms.append(t)
         meta.append((mm[0], mm[1], 0))
 
-    vals = ctx.coq_eval('cases', HEADER, terms)
-    for v, mm in zip(vals, meta):
+    tm['runs_s'] = round(_time.time() - t0, 1)
+    t0 = _time.time()
+    vals = ctx.coq_eval('cases', HEADER, terms, shard=None if quick else 20)
+    tm['model_eval_s'] = round(_time.time() - t0, 1)
+    ctx.notes['timing'] = tm
+    import hashlib
+    for v, mm, term in zip(vals, meta, terms):
         what = mm[0]
-        ctx.cov['evaluations'] += 1
+        # distinct by the exact arrays shipped; boundary-face copies and clips of arbitrary arrays count as
+        # non-trivial when the array is not all zero (always the case for generated arrays)
+        ctx.count({'term': hashlib.sha1(term.encode()).hexdigest()}, True)
         ctx.hist('correspondence', what)
         bad = []
         if what == 'step':
@@ -818,10 +868,12 @@ def run(ctx):
                 if s is not None:
                     bad.append('RK4 stage profile %d: %s' % (k + 2, describe(s)))
         elif what == 'fluxes':
-            if isinstance(v, tuple) and len(v) == 2 and isinstance(v[1], bool):
-                if v[0] is not None:
+            if isinstance(v, tuple) and len(v) == 3 and isinstance(v[1], bool):
+                if v[1]:
+                    ctx.notes['indeterminate_ill_conditioned'] = ctx.notes.get('indeterminate_ill_conditioned', 0) + 1
+                elif v[0] is not None:
                     bad.append('_getFluxes (homogenization): ' + describe(v[0]))
-                if not v[1]:
+                if not v[2]:
                     bad.append('volume-fixed frame fluxes of the substitutional elements do not cancel in the model evaluation')
             elif v is not None:
                 bad.append('_getFluxes (single phase): ' + describe(v))
@@ -835,7 +887,7 @@ def run(ctx):
             if v is not None:
                 bad.append(what + ': ' + describe(v))
         for b in bad:
-            dis.append((what, mm[1], mm[2], b))
+            dis.append((what, mm[1], mm[2], b, term))
 
     real_runs(ctx, hits, quick)
     report_hits(ctx, hits)
@@ -851,7 +903,7 @@ def run(ctx):
             report_hits(ctx, hits2)
     if dis and not ctx.violations and not ctx.known_hits:
         seen = set()
-        for what, key, idx, d in dis:
+        for what, key, idx, d, term in dis:
             cls = d.split(':')[0]
             if (what, cls) in seen:
                 continue
@@ -859,13 +911,16 @@ def run(ctx):
             n = sum(1 for x in dis if x[0] == what and x[3].split(':')[0] == cls)
             ctx.violation('correspondence', {'site': 'kawin.diffusion', 'cls': what + ' / ' + cls},
                           {'broken': {'correspondence': 'coq/C04/Model.v vs kawin/diffusion', 'first_disagreement': d, 'case': what, 'index': idx},
-                           'input': key, 'disagreements': n},
+                           'input': key, 'disagreements': n, 'coq_term': term,
+                           'note': 'replay re-runs the configuration (when input is one) and evaluates the model on every logged step; '
+                                   'coq_term is the failing comparison with the implementation output of this run as literals'},
                           'model and implementation disagree (%d cases): %s' % (n, d), no_input=True)
     for t in failed:
         ctx.violation(t, {'site': 'coq/C04/Properties.v', 'cls': 'proof'},
                       {'broken': {'theorem': t, 'file': 'coq/C04/Properties.v'}},
                       'theorem %s no longer checks' % t, no_input=True)
     ctx.notes['disagreements'] = len(dis)
+    ctx.notes['disagreement_examples'] = [{'case': d[0], 'index': d[2], 'what': d[3]} for d in dis[:5]]
     ctx.notes['oracle_hits'] = len(hits)
     ctx.assumptions += [
         'binary64 rounding and numpy summation order are not modelled: model outputs are compared with relative tolerance 2^-36 of the summed magnitudes of the terms that were added; copies (boundary faces) are compared exactly',
@@ -877,8 +932,53 @@ def run(ctx):
                                 'float -> Q transport (float.as_integer_ratio) and output parser in harness/common.py']
 
 
+def corr_for_cfg(ctx, cfg, limit=12):
+    """model vs implementation on every logged step of one configuration"""
+    rec = run_cfg(cfg)
+    terms, names = [], []
+    if rec['err'] is None and rec['it'] is not None:
+        for g in range(min(limit, len(rec['it'].log))):
+            terms.append(step_term(cfg, rec, g))
+            names.append('step %d' % g)
+            terms.append(flux_term(cfg, rec, rec['it'].log[g]['calls'][0]))
+            names.append('_getFluxes at step %d' % g)
+    t = setup_case(cfg)
+    if t:
+        terms.append(t)
+        names.append('setup twice')
+    vals = ctx.coq_eval('replay', HEADER, terms) if terms else []
+
+    def flat(v):
+        if v is None or isinstance(v, bool):
+            return []
+        if isinstance(v, tuple) and len(v) == 2 and v[0] == 'Some':
+            return [v]
+        if isinstance(v, (tuple, list)):
+            return [x for y in v for x in flat(y)]
+        return []
+    out = []
+    for n, v in zip(names, vals):
+        if isinstance(v, tuple) and len(v) == 3 and isinstance(v[1], bool) and isinstance(v[2], bool):
+            if not v[2]:
+                out.append('%s: frame identity fails' % n)
+            v = None if v[1] else v[0]          # ill-conditioned comparisons are not judged
+        for b in flat(v):
+            out.append('%s: %s' % (n, describe(b)))
+    return out
+
+
 def replay(ctx, obj):
     cfg = obj.get('input', obj)
+    if isinstance(obj.get('broken'), dict) and 'correspondence' in obj['broken']:
+        if isinstance(cfg, dict) and 'kind' in cfg and 'profiles' in cfg:
+            out = corr_for_cfg(ctx, cfg)
+        else:
+            v = ctx.coq_eval('replay', HEADER, [obj['coq_term']])[0]
+            out = [] if v is None else ['recorded implementation output vs model: %r' % (v,)]
+        for o in out:
+            print('replay:', o)
+        print('replay: %d disagreements between model and implementation on this input' % len(out))
+        return 1 if out else 0
     if cfg.get('real'):
         hits = []
         real_runs(ctx, hits, True)
